@@ -1,0 +1,13 @@
+// Unless explicitly stated otherwise all files in this repository are licensed
+// under the Apache License Version 2.0.
+// This product includes software developed at Datadog (https://www.datadoghq.com/).
+// Copyright 2025-present Datadog, Inc.
+
+//go:build verif
+
+package icmp
+
+// VerifSetEchoIDBase sets the echo identifier counter (the next driver uses v+1)
+func VerifSetEchoIDBase(v uint32) {
+	curEchoID.Store(v)
+}
